@@ -53,7 +53,7 @@ def st_interval(thorough):
     return st.fixed_dictionaries(dict(
         k=st.sampled_from(DISTINCT), base=st.integers(100, 9000), stride=st.sampled_from([1, 1, 7, 33]),
         count=counts, special=st.lists(st.sampled_from(SPECIAL_TYPES), max_size=3),
-        baddest=st.integers(0, 2), event=st.sampled_from([None, None, "connect", "ready", "leave", "setname"]),
+        baddest=st.integers(0, 2), event=st.sampled_from([None, None, "connect", "ready", "leave", "setname", "accept", "accept"]),
         dt=st.sampled_from([2.0, 2.0, 0.95, 2.0, 6.0, 1.05]),
     ))
 
@@ -78,6 +78,12 @@ class StatsWorld:
             self.mon = self._connect(91, logger=1, pid=911)
             self._send(self.mon, P.MT_SUBSCRIBE, P.SUBSCRIBE.pack(P.ALL_MESSAGE_TYPES), src=91)
             self.pubs = [self._connect(20 + i, pid=2000 + i) for i in range(4)]
+            # a second, ordinary (non-logger) subscriber of the two reports: it must receive the same reports
+            self.mon2 = self._connect(92, pid=912)
+            self._send(self.mon2, P.MT_SUBSCRIBE, P.SUBSCRIBE.pack(P.MT_TIMING_MESSAGE), src=92)
+            self._send(self.mon2, P.MT_SUBSCRIBE, P.SUBSCRIBE.pack(P.MT_MESSAGE_TRAFFIC), src=92)
+            self.mon2_reports = []
+            self.mon_reports = []
             self.pump()
             # warm-up report, discarded
             self.report(2.0, check=False)
@@ -115,11 +121,19 @@ class StatsWorld:
     def observe(self):
         """Count what the monitor saw; handle reports."""
         self.mon.rxbuf += self.mon.take()
+        mon2 = getattr(self, "mon2", None)
         for c in self.sim.conns:
-            if c is not self.mon:
+            if c is not self.mon and c is not mon2:
                 c.take()
+        if mon2 is not None:
+            mon2.rxbuf += mon2.take()
+            for fr in P.parse_stream(mon2.rxbuf, self.tc):
+                if fr.src_mod_id == 0 and fr.msg_type in (P.MT_TIMING_MESSAGE, P.MT_MESSAGE_TRAFFIC):
+                    self.mon2_reports.append((fr.msg_type, fr.payload))
         for fr in P.parse_stream(self.mon.rxbuf, self.tc):
             t = fr.msg_type
+            if mon2 is not None and fr.src_mod_id == 0 and t in (P.MT_TIMING_MESSAGE, P.MT_MESSAGE_TRAFFIC):
+                self.mon_reports.append((t, fr.payload))
             if t == P.MT_TIMING_MESSAGE and fr.src_mod_id == 0:
                 self.on_timing(fr)
             elif t == P.MT_MESSAGE_TRAFFIC and fr.src_mod_id == 0:
@@ -190,7 +204,7 @@ class StatsWorld:
                 self.viol("traffic/type-not-seen", f"MESSAGE_TRAFFIC seqno {seqno} attributes {c} messages to type {t} which was not seen")
         self.reports_checked += 1
 
-    def report(self, dt, check=True):
+    def report(self, dt, check=True, accept_only=False):
         """A quiet manager round (nothing ready) with the clock advanced: periodic reports fire."""
         self.checking = check
         self.traffic_frames = []
@@ -199,13 +213,24 @@ class StatsWorld:
         n_timing_before = sum(v for t, v in self.seen_timing.items() if 0 <= t < 10000)
         self.el_timing += dt
         self.el_traffic += dt
-        self.sim.step([], list(self.sim.conns), dt)
+        if accept_only:
+            # the only thing ready in the report round is the listening socket (a new connection is waiting)
+            self.sim.open()
+            self.sim.step([LISTENER], list(self.sim.conns), dt)
+        else:
+            self.sim.step([], list(self.sim.conns), dt)
         self.alive()
         # frames of the report round: TIMING first, then TRAFFIC, then (maybe) ACTIVE_CLIENTS + CLIENT_INFO,
         # which already belong to the next interval
         self.seen_traffic = Counter()
         self.observe()
         fired = dict(timing=self.got_timing, traffic=bool(self.traffic_frames))
+        if check and self.mon2_reports != self.mon_reports:
+            n1, n2 = len(self.mon_reports), len(self.mon2_reports)
+            self.viol("report/not-delivered-to-every-subscriber", f"the logger monitor received {n1} TIMING/TRAFFIC report frames so far, "
+                      f"the ordinary (always writable) subscriber of both report types {n2}"
+                      + ("" if n1 != n2 else " with different content")
+                      + (": the reports of a round in which only the listening socket was ready were dropped and their counts lost" if accept_only else ""))
         if check and self.cfg.get("timing", True) and self.el_timing > 0.9 + 1e-9 and not self.got_timing:
             self.viol("timing/no-report", f"no TIMING_MESSAGE although {self.el_timing:.2f} s elapsed since the previous one")
         if self.got_timing:
@@ -279,7 +304,7 @@ class StatsWorld:
                 self.pump()
         self.pump()
         ndist = len({t for t, _, _ in jobs})
-        fired = self.report(iv["dt"])
+        fired = self.report(iv["dt"], accept_only=(ev == "accept"))
         if res is not None:
             res.count("intervals")
             res.count(f"distinct-types-{iv['k']}")
